@@ -51,8 +51,9 @@ def gen_language(rng, h):
         else:  # higher-order
             n = rng.randint(1, 2)
             a, b_ = ("v", 0), ("v", n - 1)
-            fn = ("o", 3, [a, b_])
-            params = [fn] + [rng.choice([a, ("o", F, [a]), rng.choice(base)]) for _ in range(rng.randint(1, 2))]
+            fn = ("o", 3, [rng.choice([a, ("w",)]), b_])
+            params = [fn] + [rng.choice([a, a, ("o", F, [a]), rng.choice(base)]) for _ in range(rng.randint(1, 2))]
+            rng.shuffle(params)      # a value argument may bound the variable before the function argument does
             res = rng.choice([b_, ("o", F, [b_])])
             cs = []
         body = res
@@ -113,6 +114,8 @@ def gen_expr(rng, h, ops, target, depth, ninputs, assign=None):
                 t = rng.choice(base)
             if has_fun(t):
                 return ("src", None)      # function types cannot be written in type notation
+            if t[2] and rng.random() < 0.35:
+                t = punch_hole(rng, t)    # `- : F(_)`: parse_type makes a fresh variable per `_`
             return ("src", t)
         if q < 0.72:
             return ("src", None)
@@ -150,6 +153,27 @@ def gen_expr(rng, h, ops, target, depth, ninputs, assign=None):
     return e
 
 
+def punch_hole(rng, t):
+    """Replace one proper subterm by the wildcard `_`."""
+    if not t[2]:
+        return ("w",)
+    i = rng.randrange(len(t[2]))
+    sub = t[2][i]
+    new = ("w",) if not sub[2] or rng.random() < 0.5 else punch_hole(rng, sub)
+    return ("o", t[1], t[2][:i] + [new] + t[2][i + 1:])
+
+
+def holes_to_vars(t, counter):
+    """`_` in type notation is a plain fresh TypeVariable (not a wildcard):
+    model it as a schematic variable of a one-off schema."""
+    if t[0] == "w":
+        counter[0] += 1
+        return ("v", counter[0] - 1)
+    if t[0] == "v":
+        return t
+    return ("o", t[1], [holes_to_vars(a, counter) for a in t[2]])
+
+
 def sty_to_conc(t):
     return (t[1], [sty_to_conc(a) for a in t[2]])
 
@@ -162,7 +186,13 @@ def has_var(t):
     return t[0] in ("v", "w") or any(has_var(a) for a in t[2])
 
 
+def has_hole(t):
+    return t[0] == "w" or (t[0] == "o" and any(has_hole(a) for a in t[2]))
+
+
 def type_text(t, names):
+    if t[0] == "w":
+        return "_"
     o, args = t[1], t[2]
     if o == 3:
         raise ValueError
@@ -217,7 +247,9 @@ class Compiler:
                 return ("source", self.push(("inst", (0, ("w",), []))))
             # `- : T`: the anonymous source's wildcard type is replaced by T
             # (`previous.type = t`), then T is unified with itself
-            t = self.push(("inst", (0, e[1], [])))
+            cnt = [0]
+            body = holes_to_vars(e[1], cnt)
+            t = self.push(("inst", (cnt[0], body, [])))
             self.cmds.append(("unify", t, t, True))
             return ("source", t)
         if k == "in":
@@ -427,7 +459,7 @@ def main(tier: str, seed: int, replay: str | None = None) -> int:
                     impl=io, model=mo), has_input=False)
         # oracle (a): verified checker on the model state (equal to the implementation's)
         if mo["err"] is None:
-            if crow[1:4] == [1, 1, 1]:
+            if crow[1:4] == [1, 1, 1] and crow[4] > 0:
                 stats["checker_validated"] += 1
             elif io == mo:
                 rep.violation(f"node_{stats['parsed']}", dict(payload, kind="oracle (verified checker)",
